@@ -53,4 +53,39 @@ for (const c of inp.calls || []) {
     out.calls.push({ err: String(err) });
   }
 }
+// helper calls on code-unit strings: {fn, u: "<4 hex digits per unit>", a: [args...]} -> {u: "..."} | {err}
+// fn: escapeJsString | escapeUri | escapeHtml | changeNewlineToBr | insertWordBreaks | truncate
+//     (changeNewlineToBr / insertWordBreaks as the generated code calls them: on soy.$$escapeHtml(x))
+// or {fn, all: true}: the helper on every single code unit 0..65535, results joined by ","
+function unitsOf(h) { let s = ''; for (let i = 0; i < h.length; i += 4) s += String.fromCharCode(parseInt(h.substr(i, 4), 16)); return s; }
+function hexUnits(s) { let h = ''; for (let i = 0; i < s.length; i++) h += ('000' + s.charCodeAt(i).toString(16)).slice(-4); return h; }
+function helper(fn, x, a) {
+  switch (fn) {
+    case 'escapeJsString': return soy.$$escapeJsString(x);
+    case 'escapeUri': return soy.$$escapeUri(x);
+    case 'escapeHtml': return soy.$$escapeHtml(x);
+    case 'changeNewlineToBr': return soy.$$changeNewlineToBr(soy.$$escapeHtml(x));
+    case 'insertWordBreaks': return soy.$$insertWordBreaks(soy.$$escapeHtml(x), a[0]);
+    case 'truncate': return soy.$$truncate(x, a[0], a[1]);
+  }
+  throw new Error('unknown helper ' + fn);
+}
+if (inp.units) {
+  out.units = [];
+  for (const c of inp.units) {
+    try {
+      if (c.all) {
+        const parts = [];
+        for (let u = 0; u < 65536; u++) {
+          try { parts.push(hexUnits(String(helper(c.fn, String.fromCharCode(u), c.a || [])))); } catch (err) { parts.push('!'); }
+        }
+        out.units.push({ u: parts.join(',') });
+      } else {
+        out.units.push({ u: hexUnits(String(helper(c.fn, unitsOf(c.u || ''), c.a || []))) });
+      }
+    } catch (err) {
+      out.units.push({ err: String(err) });
+    }
+  }
+}
 fs.writeFileSync(process.argv[3], JSON.stringify(out));
